@@ -296,6 +296,24 @@ def libTask : String → Option TaskDef
       .ok (tcall "redun.const" [a "x", .fork (tcall "ev.raiser" [a "kind", .str "ff"])])
   | "ev.fork_fail_join" => some <| mkTask [p "kind"] fun a =>
       .ok (tcall "ev.joiner" [.fork (tcall "ev.raiser" [a "kind", .str "fj"])])
+  | "ev.fork_seq" => some <| mkTask [p "n"] fun a =>
+      match a "n" with
+      | .int n => .ok (.fork (.seq ((rangeE n).map fun i => tcall "ev.inc" [i])))
+      | _ => .unk
+  | "ev.fork_cond" => some <| mkTask [p "x"] fun a =>
+      .ok (.fork (.cond [.op "eq" [tcall "ev.inc" [a "x"], .int 1], tcall "ev.twice" [.int 10],
+        tcall "ev.neg" [tcall "ev.inc" [a "x"]]]))
+  | "ev.fork_map" => some <| mkTask [p "n"] fun a => .ok (.fork (.map_ (.taskv "ev.inc") (tcall "ev.mklist" [a "n"])))
+  | "ev.fork_catch" => some <| mkTask [p "kind"] fun a =>
+      .ok (.fork (.catch (tcall "ev.inc" [tcall "ev.raiser" [a "kind", .str "fc"]]) [.cls "Exception"] [.taskv "ev.rec_val"]))
+  | "ev.fork_lazy_call" => some <| mkTask [p "x"] fun a =>
+      .ok (.fork (.op "call" [tcall "ev.first" [L [.taskv "ev.inc", a "x"]], .cont .tuple [a "x"], .dict [] []]))
+  | "ev.fork_deep" => some <| mkTask [p "n", p "kind"] fun a =>
+      .ok (.fork (.seq [tcall "ev.inc" [.int 1], tcall "ev.fail_after" [a "n", a "kind"], tcall "ev.inc" [.int 2]]))
+  | "ev.join_all" => some <| mkTask [p "ths"] fun a =>
+      match seqItems (a "ths") with
+      | some ths => .ok (L (ths.map .join))
+      | none => .unk
   | "ev.tagit" => some <| mkTask [p "x"] fun a =>
       .ok (.applyTags (tcall "ev.inc" [a "x"]) (tagPairs [("tk", .str "tv")]) (tagPairs [("jk", .int 1)])
         (tagPairs [("ek", .str "ev")]))
